@@ -132,6 +132,12 @@ class Ctx:
             self.obligations.append((f"audit {module}", False, aout[-2000:]))
         return allok, aout
 
+    def oracle_available(self):
+        """After a failed proof obligation: can the executable model still be built (on the
+        regenerated tables)? Then the search for a concrete failing input goes on."""
+        ok, _ = self.lake_build(["rie-oracle"])
+        return ok and os.path.exists(ORACLE)
+
     # ---------- correspondence ----------
     def oracle_bin(self):
         """A private copy of rie-oracle (another check may relink the shared one meanwhile)."""
